@@ -414,6 +414,27 @@ pub fn x_split<'a>(s: &'a str, c: char) -> (r: Vec<&'a str>)
 { s.split(c).collect() }
 
 
+// ---- generic facts about has_char (used by the inverse and checksum theories) ----
+pub proof fn lemma_has_char_concat(a: Seq<char>, b: Seq<char>, c: char)
+    ensures has_char(a + b, c) == (has_char(a, c) || has_char(b, c))
+{
+    if has_char(a, c) { let i = choose|i: int| 0 <= i < a.len() && a[i] == c; assert((a + b)[i] == c); }
+    if has_char(b, c) { let i = choose|i: int| 0 <= i < b.len() && b[i] == c; assert((a + b)[a.len() + i] == c); }
+    if has_char(a + b, c) {
+        let i = choose|i: int| 0 <= i < (a + b).len() && (a + b)[i] == c;
+        if i < a.len() { assert(a[i] == c); } else { assert(b[i - a.len()] == c); }
+    }
+}
+
+
+pub proof fn lemma_single_excludes(c: char, x: char)
+    requires c != x
+    ensures !has_char(seq![c], x)
+{
+    if has_char(seq![c], x) { let i = choose|i: int| 0 <= i < seq![c].len() && seq![c][i] == x; }
+}
+
+
 // ---- unit T.PurlField  <= purl/src/parse.rs:112 ----
 #[derive(Debug, Clone, Copy)]
 pub enum PurlField {
